@@ -137,6 +137,12 @@ fn load_package(
     })
 }
 
+fn sorted_imports(imports: &HashSet<String>) -> Vec<String> {
+    let mut names: Vec<String> = imports.iter().cloned().collect();
+    names.sort_by(|a, b| b.cmp(a));
+    names
+}
+
 pub fn discover_packages(
     root_dir: &Path,
     entry_path: Option<&Path>,
@@ -164,7 +170,7 @@ pub fn discover_packages_with_layout(
     let mut packages = HashMap::new();
     let mut discovery_order = Vec::new();
     let mut package_dirs = HashMap::new();
-    let mut queue: Vec<String> = entry_package.imports.iter().cloned().collect();
+    let mut queue: Vec<String> = sorted_imports(&entry_package.imports);
     let mut loaded = HashSet::new();
 
     loaded.insert(entry_name.clone());
@@ -187,7 +193,7 @@ pub fn discover_packages_with_layout(
                 package_name
             )));
         }
-        queue.extend(package.imports.iter().cloned());
+        queue.extend(sorted_imports(&package.imports));
         loaded.insert(declared_name.clone());
         packages.insert(declared_name.clone(), package);
         discovery_order.push(declared_name.clone());
